@@ -710,7 +710,10 @@ pub fn gen_case(rng: &mut Rng, tier: &str, profile: &str, stats: &mut Stats) -> 
     // pending-timeout regimes: already elapsed (0), never elapses, elapses mid-sequence (real sleeps)
     let c07_variant = if profile == "C07" { rng.below(12) } else { 99 };
     let directed_c07 = c07_variant < 2;
-    let directed_c07b = c07_variant == 2 || c07_variant == 3; // incoming limit vs. promotion
+    let directed_c07b = c07_variant == 2 || c07_variant == 3 || c07_variant == 5; // incoming limit vs. promotion
+    // (variant 5: a member leaves before the candidate's timeout elapses - the candidate is promoted
+    // into a bucket that has room, not in exchange for the disconnected head)
+    let c07b_room = c07_variant == 5;
     let directed_c07c = c07_variant == 4; // the only disconnected node disappears while a candidate waits
     let c16_variant = if profile == "C16" { rng.below(10) } else { 99 };
     let directed_c08 = profile == "C08" && rng.chance(1, 8);
@@ -900,6 +903,10 @@ pub fn gen_case(rng: &mut Rng, tier: &str, profile: &str, stats: &mut Stats) -> 
         let pk = key_at(&local, hb, rng);
         ops.push(format!("kins {} v{}:- c i", hx(&pk), fresh));
         ops.push(format!("kstatus {} c i", hx(&members[15])));
+        if c07b_room {
+            stats.bump("gen.case.directed-incoming-limit-promotion-into-room");
+            ops.push(format!("krm {}", hx(&members[14])));
+        }
         ops.push("kdump".into());
         ops.push("ksleep 450".into());
         ops.push(format!("kentry {}", hx(&pk)));
